@@ -232,6 +232,10 @@ func RefParse(in string) (*pb.Query, string) {
 // ---------------------------------------------------------------- generation
 
 var fieldNames = []string{"a", "b", "foo", "Bar", "x_1", "col7", "A_b_C", "z9"}
+
+// not identifiers: letters outside ASCII, among them the code points whose case mapping lands
+// in ASCII (U+212A KELVIN SIGN, U+0130, U+017F LONG S, U+0131 DOTLESS I), digits and '_' first
+var nonFields = []string{"\u212a", "\u0130d", "a\u212a", "\u017f", "\u0131", "é", "ß", "日", "ｋ", "_a", "9a", "a-b", "a.b", "\u00a0a"}
 var valueTexts = []string{"", "1", "bar", "foo\"bar", "\"", "\"\"", "a b", "line\nbreak", "ü日本", "tab\t", "x,y;z", "(&|^=)", "$1", "\xff\xfe", "\x00"}
 var placeholders = []string{"$1", "$2", "$3", "$10", "$007", "$2147483647", "$0", "$00", "$", "$2147483648", "$4294967297", "$99999999999999999999999999", "$-1", "$1a"}
 
@@ -256,7 +260,11 @@ func genTokens(r *simrt.Rand, depth int, validPH bool) []string {
 					rhs = placeholders[r.Intn(len(placeholders))]
 				}
 			}
-			return []string{fieldNames[r.Intn(len(fieldNames))], "=", rhs}
+			name := fieldNames[r.Intn(len(fieldNames))]
+			if !validPH && r.Chance(1, 6) {
+				name = nonFields[r.Intn(len(nonFields))]
+			}
+			return []string{name, "=", rhs}
 		}
 	}
 	expr = func(d int) []string {
@@ -302,7 +310,7 @@ func joinTokens(r *simrt.Rand, toks []string) string {
 
 func mutateTokens(r *simrt.Rand, toks []string) []string {
 	t := append([]string(nil), toks...)
-	extra := []string{"(", ")", "&", "|", "^", "=", ",", ";", "foo", quote("v"), "$1", "\"open", "#", "é"}
+	extra := []string{"(", ")", "&", "|", "^", "=", ",", ";", "foo", quote("v"), "$1", "\"open", "#", "é", "\u212a", "\u0130", "\f", "\v", "\u00a0", "\u2028", "\ufeff"}
 	for i, n := 0, r.Range(1, 2); i < n && len(t) > 0; i++ {
 		k := r.Intn(len(t))
 		switch r.Intn(5) {
@@ -333,7 +341,7 @@ func genC09(c *Ctx) any {
 	if c.Thorough() {
 		maxDepth = 40
 	}
-	raw := []byte(" \t\n()&|^=,;\"$019azAZ_\xff\xc3\xa9#\x00!")
+	raw := []byte(" \t\n()&|^=,;\"$019azAZ_\xff\xc3\xa9#\x00!\f\v\xe2\x84\xaa\xc4\xb0")
 	for i := 0; i < n; i++ {
 		var in string
 		switch r.Intn(10) {
